@@ -13,7 +13,6 @@ package tls
 import (
 	"bytes"
 	"context"
-	"errors"
 	"fmt"
 	"os"
 	"regexp"
@@ -192,7 +191,8 @@ type vf23Case struct {
 	FaultStep int
 	CloseSrv1 bool // on teardown close the server first
 
-	Pump []int // schedule: kind*1000 + n*... see vf23Run
+	Pump      []int // schedule: kind*1000 + n*... see vf23Run
+	TailChunk int   // after the schedule: CRYPTO data is delivered in pieces of at most this many bytes (0 = whole)
 }
 
 var vf23AllGroups = []CurveID{X25519, CurveP256, CurveP384, CurveP521, X25519MLKEM768}
@@ -371,6 +371,7 @@ func vf23GenCase(rt *rapid.T) *vf23Case {
 		c.FaultStep = rapid.IntRange(1, 10).Draw(rt, "fault_step")
 	}
 	c.Pump = rapid.SliceOfN(rapid.IntRange(0, 3999), 0, 60).Draw(rt, "pump")
+	c.TailChunk = rapid.SampledFrom([]int{0, 0, 1, 5, 37, 300}).Draw(rt, "tail_chunk")
 	return c
 }
 
@@ -593,7 +594,9 @@ func vf23MakeSpec(c *vf23Case) *ClientHelloSpec {
 	for i := range idx {
 		idx[i] = i
 	}
-	sort.SliceStable(idx, func(a, b int) bool { return c.OrderKeys[idx[a]%len(c.OrderKeys)] < c.OrderKeys[idx[b]%len(c.OrderKeys)] })
+	sort.SliceStable(idx, func(a, b int) bool {
+		return c.OrderKeys[idx[a]%len(c.OrderKeys)] < c.OrderKeys[idx[b]%len(c.OrderKeys)]
+	})
 	for _, i := range idx {
 		spec.Extensions = append(spec.Extensions, exts[i])
 	}
@@ -778,8 +781,8 @@ func vf23Run(c *vf23Case, fast bool) *vf23Result {
 		res.interrupted = true
 	}
 	if c.Fault == "unbuildable" {
-		// independent confirmation that the hello of this configuration cannot be built: the same ID/spec/config on a
-		// plain (non-QUIC) UConn
+		// independent confirmation that the hello of this configuration cannot be built: BuildHandshakeState called
+		// directly on a twin connection with the same ID/spec/config (never started)
 		tw := *c
 		twq, twerr := vf23NewClient(&tw)
 		if twerr == nil {
@@ -869,6 +872,9 @@ func vf23Run(c *vf23Case, fast bool) *vf23Result {
 			e.inbox[0].Data = head.Data[k:]
 		case mode == 1: // empty CRYPTO frame
 			data = []byte{}
+		case mode == 9 && c.TailChunk > 0 && len(head.Data) > c.TailChunk: // fixed-size pieces
+			data = head.Data[:c.TailChunk]
+			e.inbox[0].Data = head.Data[c.TailChunk:]
 		default:
 			data = head.Data
 			e.inbox = e.inbox[1:]
@@ -938,7 +944,7 @@ func vf23Run(c *vf23Case, fast bool) *vf23Result {
 			over = true
 			break
 		}
-		if round > 400 {
+		if round > 4000 {
 			res.livelock = true
 			break
 		}
@@ -949,7 +955,7 @@ func vf23Run(c *vf23Case, fast bool) *vf23Result {
 		for _, e := range []*vf23End{res.srv, res.cli} {
 			for len(e.inbox) > 0 && e.err == nil {
 				progress++
-				if !deliver(e, 2, 0) {
+				if !deliver(e, 9, 0) {
 					return res
 				}
 			}
@@ -1136,7 +1142,7 @@ func vf23CheckClientWire(c *vf23Case, res *vf23Result, complete bool) (string, i
 
 func vf23Describe(c *vf23Case) map[string]any {
 	return map[string]any{"fault": c.Fault, "sub": c.FaultSub, "step": c.FaultStep, "groups": fmt.Sprint(c.Groups), "shares": fmt.Sprint(c.Shares),
-		"srv_curves": fmt.Sprint(c.SrvCurves), "alpn": c.ALPN, "srv_protos": c.SrvProtos, "tps": len(c.TPs), "extras": c.Extras, "pump_len": len(c.Pump), "key": c.KeyType}
+		"srv_curves": fmt.Sprint(c.SrvCurves), "alpn": c.ALPN, "srv_protos": c.SrvProtos, "tps": len(c.TPs), "extras": c.Extras, "pump_len": len(c.Pump), "tail_chunk": c.TailChunk, "key": c.KeyType}
 }
 
 // vf23Judge evaluates one executed case. rerun re-executes the case (for the hang oracle).
@@ -1151,7 +1157,7 @@ func vf23Judge(t vfFataler, st *vfStats, c *vf23Case, res *vf23Result, rerun fun
 		if again.notParked != "" || again.hang != res.hang {
 			vf23Inconclusive(fmt.Sprintf("%s hung once (%v) but the re-execution gave hang=%q notParked=%q", res.hang, res.hangElapsed, again.hang, again.notParked))
 		}
-		detail := fmt.Sprintf("%s did not return (parked for %v and %v in two executions; no handshake goroutine left to wake it; %s); fault=%s/%s; build error of the same configuration on a plain UConn: %v; preset error: %v\n%s",
+		detail := fmt.Sprintf("%s did not return (parked for %v and %v in two executions; no handshake goroutine left to wake it; %s); fault=%s/%s; BuildHandshakeState on a twin connection: %v; preset error: %v\n%s",
 			res.hang, res.hangElapsed.Round(time.Millisecond), again.hangElapsed.Round(time.Millisecond), res.closeAlso, c.Fault, c.FaultSub, res.twinBuildErr, res.presetErr, res.hangDump)
 		if res.hang == "client.Start" && c.Fault == "unbuildable" && (res.twinBuildErr != nil || res.presetErr != nil) {
 			st.Class("hang:start-build-fails")
@@ -1162,7 +1168,7 @@ func vf23Judge(t vfFataler, st *vfStats, c *vf23Case, res *vf23Result, rerun fun
 		return
 	}
 	if res.livelock {
-		st.Violation(t, "event pump did not reach quiescence in 400 rounds")
+		st.Violation(t, "event pump did not reach quiescence in 4000 rounds")
 	}
 	cliDone := res.cli.has(QUICHandshakeDone) > 0
 	srvDone := res.srv.has(QUICHandshakeDone) > 0
@@ -1329,6 +1335,8 @@ func TestVerifC23Directed(t *testing.T) {
 			c.Pump = []int{0, 3005, 3007, 3005, 1000, 2005, 2011, 2005, 2013, 1000, 2005, 2005, 2005, 2005, 0, 3005, 3005}
 		}},
 		{"ticket", func(c *vf23Case) { c.SendTicket = true; c.ClientCache = true }},
+		{"ticket-chunked", func(c *vf23Case) { c.SendTicket = true; c.TailChunk = 7 }},
+		{"bytewise", func(c *vf23Case) { c.TailChunk = 1; c.SrvCurves = []CurveID{CurveP256} }},
 		{"untrusted", func(c *vf23Case) { c.Fault = "untrusted" }},
 		{"alpn-client-only", func(c *vf23Case) { c.Fault = "alpn-mismatch"; c.FaultSub = "client-only"; c.SrvProtos = nil }},
 		{"alpn-disjoint", func(c *vf23Case) { c.Fault = "alpn-mismatch"; c.FaultSub = "disjoint"; c.SrvProtos = []string{"vf-a"} }},
@@ -1368,6 +1376,13 @@ func TestVerifC23Pump(t *testing.T) {
 		res := vf23Run(c, fast)
 		exp := vf23Model(c)
 		st.Class("fault:" + c.Fault)
+		st.Class(fmt.Sprintf("tail-chunk:%d", c.TailChunk))
+		if c.SendTicket {
+			st.Class("server-sends-ticket")
+		}
+		if len(c.Pump) >= 10 {
+			st.Class("pump-schedule>=10")
+		}
 		if c.Fault == "unbuildable" {
 			st.Class("unbuildable:" + c.FaultSub)
 		}
@@ -1383,5 +1398,3 @@ func TestVerifC23Pump(t *testing.T) {
 		vf23Judge(rt, st, c, res, func() *vf23Result { return vf23Run(c, fast) })
 	})
 }
-
-var _ = errors.New
